@@ -73,12 +73,14 @@ theorem respSigma1_selects_fabric (fabrics : List Fabric) (m : Msg) (eph : Nat) 
     split at h
     · cases h
     · rename_i f hf
-      simp only [RespOut1.sent.injEq] at h
-      subst h
-      refine ⟨iRnd, iSid, dest, iEph, resume, rfl, hf, ?_, ?_, rfl, rfl, rfl, rfl, rfl, rfl, rfl⟩
-      · exact List.mem_of_find?_eq_some hf
-      · have := List.find?_some hf
-        simpa using this
+      split at h
+      · cases h
+      · simp only [RespOut1.sent.injEq] at h
+        subst h
+        refine ⟨iRnd, iSid, dest, iEph, resume, rfl, hf, ?_, ?_, rfl, rfl, rfl, rfl, rfl, rfl, rfl⟩
+        · exact List.mem_of_find?_eq_some hf
+        · have := List.find?_some hf
+          simpa using this
   · cases h
 
 /-- **Responder, resumption**: a session completed on the resumption path takes the identity of
@@ -239,9 +241,11 @@ theorem respSigma1_s2 (fabrics : List Fabric) (m : Msg) (eph : Nat) (rnd rid sid
   · rename_i iRnd iSid dest iEph resume
     split at h
     · cases h
-    · simp only [RespOut1.sent.injEq] at h
-      subst h
-      exact ⟨iEph, rfl, rfl, rfl, rfl⟩
+    · split at h
+      · cases h
+      · simp only [RespOut1.sent.injEq] at h
+        subst h
+        exact ⟨iEph, rfl, rfl, rfl, rfl⟩
   · cases h
 
 /-- **Initiator side of agreement**: if the initiator accepts the Sigma2 an honest responder
@@ -614,9 +618,11 @@ theorem sigma3_unforgeable (t t' : Time) (fabrics : List Fabric) (f : Fabric) (p
     simp only [List.find?_nil, Option.map_none] at hR
     split at hR
     · cases hR
-    · simp only [RespOut1.sent.injEq] at hR
-      rw [← hR] at hpe
-      exact hpe.symm
+    · split at hR
+      · cases hR
+      · simp only [RespOut1.sent.injEq] at hR
+        rw [← hR] at hpe
+        exact hpe.symm
   have hrEph : rEph = .epk ephR := by
     rw [hs2] at hm2
     simp only [Msg.sigma2.injEq] at hm2
@@ -713,28 +719,166 @@ theorem sigma3_unforgeable (t t' : Time) (fabrics : List Fabric) (f : Fabric) (p
     · rw [hm, h, hs3']
 
 
-/-- What remains unproved of the tamper clause — the symmetric statement for Sigma2: if the
-attacker cannot sign under the responder's operational key and every certificate it can present
-for the addressed node id certifies that key, then any Sigma2 the initiator accepts is the
-responder's own up to the (unauthenticated at this point, transcript-bound at Sigma3) session id.
-Unlike Sigma3 this does not follow from encryption alone: an insider who knows the IPK can run its
-own ECDH, so the argument goes through the TBS signature.  Kept as a definition, not proved. -/
-def C01_full : Prop :=
-  ∀ (t : Time) (fabrics : List Fabric) (f : Fabric) (peer ephI ephR : Nat)
-    (rI sI ipk rR idR sR : Nat) (ctx : RespCtx) (c3 : InitCtx3) (C : Cert → Prop) (m : Msg),
-    f.ipk = .atom ipk →
-    respSigma1 fabrics (initSigma1 f [] peer ephI (.atom rI) (.atom sI)).s1 ephR (.atom rR)
-      (.atom idR) (.atom sR) = .sent ctx →
-    ctx.fabric.opKey = ctx.fabric.noc.pubKey →
-    (∀ c, C c → nodeIdOf c.subject = some peer → c.pubKey = ctx.fabric.opKey) →
-    Derivable [ephI, ephR] (· ≠ ctx.fabric.opKey) C
-      [(initSigma1 f [] peer ephI (.atom rI) (.atom sI)).s1.toTerm, ctx.s2.toTerm, f.ipk] m.toTerm →
-    initSigma2 t (initSigma1 f [] peer ephI (.atom rI) (.atom sI)) m = some c3 →
+/-! ## The Sigma2 side: signature origin
+
+Unlike Sigma3, Sigma2 is not protected by encryption alone: an insider who knows the IPK can run
+its own ECDH with the initiator and encrypt whatever it likes under the resulting S2K.  What it
+cannot produce is the responder's TBS signature over the initiator's ephemeral key.  The
+invariant `R` says where signatures and certificates the attacker ends up with come from. -/
+
+/-- `R`: signature / certificate origin.  Outside the honest ciphertexts `E` (which the attacker
+cannot open), no signature under a key outside `S` and no certificate outside `C` occurs. -/
+def R (S : Nat → Prop) (C : Cert → Prop) (E : List Term) : Term → Prop
+  | .atom _ => True
+  | .epk _ => True
+  | .shared _ _ => True
+  | .badShared _ t => R S C E t
+  | .pair u v => R S C E u ∧ R S C E v
+  | .hash u => R S C E u
+  | .kdf s x y => R S C E s ∧ R S C E x ∧ R S C E y
+  | .mac k m => R S C E k ∧ R S C E m
+  | .sign k m => S k ∧ R S C E m
+  | .mic k n => R S C E k ∧ R S C E n
+  | .enc k n p => Term.enc k n p ∈ E ∨ (R S C E k ∧ R S C E n ∧ R S C E p)
+  | .cert c => C c
+  | .none => True
+  | .part _ t => R S C E t
+
+theorem R_ecdh (S : Nat → Prop) (C : Cert → Prop) (E : List Term) (z : Nat) (t : Term)
+    (ht : R S C E t) : R S C E (ecdh z t) := by
+  unfold ecdh
+  split
+  · split <;> trivial
+  · exact ht
+
+/-- every term the attacker derives satisfies the origin invariant, provided what it starts from
+does and every honest ciphertext in `E` is under a secret key of the handshake `(a, b)` -/
+theorem derivable_R (a b : Nat) (H : List Nat) (S : Nat → Prop) (C : Cert → Prop) (E K : List Term)
+    (ha : a ∈ H) (hb : b ∈ H) (hK : ∀ t ∈ K, P a b t ∧ R S C E t)
+    (hE : ∀ k n p, Term.enc k n p ∈ E → isSec a b k = true) :
+    ∀ t, Derivable H S C K t → R S C E t := by
+  intro t h
+  have hP : ∀ t, Derivable H S C K t → P a b t :=
+    derivable_P a b H S C K ha hb (fun t ht => (hK t ht).1)
+  induction h with
+  | known hm => exact (hK _ hm).2
+  | atom n => trivial
+  | none => trivial
+  | cert hc => exact hc
+  | epk n => trivial
+  | ownEcdh _ _ ih => exact R_ecdh _ _ _ _ _ ih
+  | pair _ _ ih1 ih2 => exact ⟨ih1, ih2⟩
+  | fst _ ih => exact ih.1
+  | snd _ ih => exact ih.2
+  | hash _ ih => exact ih
+  | kdf _ _ _ ih1 ih2 ih3 => exact ⟨ih1, ih2, ih3⟩
+  | mac _ _ ih1 ih2 => exact ⟨ih1, ih2⟩
+  | sign hs _ ih => exact ⟨hs, ih⟩
+  | mic _ _ ih1 ih2 => exact ⟨ih1, ih2⟩
+  | enc _ _ _ ih1 ih2 ih3 => exact Or.inr ⟨ih1, ih2, ih3⟩
+  | dec _ hk ih1 _ =>
+    rcases ih1 with h1 | h1
+    · have := hE _ _ _ h1
+      rw [P_not_sec (hP _ hk)] at this; cases this
+    · exact h1.2.2
+  | part _ ih => exact ih
+
+/-- **Sigma2 cannot be forged** (`C01_full`, the initiator side of unforgeability): against the
+same Dolev-Yao attacker (sees the wire, knows the IPK, own ephemeral secrets, signs under every
+key in `S`, presents every certificate in `C`), if
+* the attacker cannot sign under the responder's operational key (`hS`), and
+* every certificate it can present that is valid for the addressed fabric and names the addressed
+  node id certifies that key (`hC`: the fabric's CA issued the node id once — shown necessary below),
+then every Sigma2 derivable from the wire that the initiator accepts is the honest responder's own
+Sigma2 for this handshake (same random, ephemeral key, ciphertext — hence same chain, signature and
+resumption id), up to the responder session id, which Sigma2 does not authenticate (it is bound
+by the transcript hash at Sigma3, see `net_single_mutation`). -/
+theorem C01_full (t : Time) (fabrics : List Fabric) (f : Fabric) (peer ephI ephR : Nat)
+    (rI sI ipk rR idR sR : Nat) (ctx : RespCtx) (c3 : InitCtx3) (S : Nat → Prop) (C : Cert → Prop)
+    (m : Msg)
+    (hipk : f.ipk = .atom ipk)
+    (hR : respSigma1 fabrics (initSigma1 f [] peer ephI (.atom rI) (.atom sI)).s1 ephR (.atom rR)
+      (.atom idR) (.atom sR) = .sent ctx)
+    (hS : ¬ S ctx.fabric.opKey)
+    (hC : ∀ c ic, C c → CaseValid t f.view c ic → nodeIdOf c.subject = some peer →
+      c.pubKey = ctx.fabric.opKey)
+    (hD : Derivable [ephI, ephR] S C
+      [(initSigma1 f [] peer ephI (.atom rI) (.atom sI)).s1.toTerm, ctx.s2.toTerm, f.ipk] m.toTerm)
+    (hA : initSigma2 t (initSigma1 f [] peer ephI (.atom rI) (.atom sI)) m = some c3) :
     ∃ sid', m = .sigma2 (.atom rR) sid' (.epk ephR)
       (.enc (s2k ctx.secret ctx.fabric.ipk (.atom rR) (.epk ephR) ctx.s1) nonceS2
         (tbe2 ctx.fabric.noc ctx.fabric.icac
           (Term.sign ctx.fabric.opKey (tbs ctx.fabric.noc ctx.fabric.icac (.epk ephR) (.epk ephI)))
-          (.atom idR)))
+          (.atom idR))) := by
+  obtain ⟨iEph, hpe, hsec, hs1, hs2⟩ := respSigma1_s2 fabrics _ ephR _ _ _ ctx hR
+  obtain ⟨rRnd, rSid, rEph, noc, icac, sig, rid, hm, hv, hn, hsig, _⟩ :=
+    initiator_sigma2_implies_auth t _ m c3 hA
+  have hiEph : iEph = .epk ephI := by
+    have hR' := hR
+    unfold respSigma1 initSigma1 at hR'
+    simp only [List.find?_nil, Option.map_none] at hR'
+    split at hR'
+    · cases hR'
+    · split at hR'
+      · cases hR'
+      · simp only [RespOut1.sent.injEq] at hR'
+        rw [← hR'] at hpe
+        exact hpe.symm
+  let a := min ephR ephI
+  let b := max ephR ephI
+  have hSec : ctx.secret = .shared a b := by rw [hsec, hiEph, ecdh_epk]
+  let E2 : Term := .enc (s2k ctx.secret ctx.fabric.ipk (.atom rR) (.epk ephR) ctx.s1) nonceS2
+    (tbe2 ctx.fabric.noc ctx.fabric.icac
+      (Term.sign ctx.fabric.opKey (tbs ctx.fabric.noc ctx.fabric.icac (.epk ephR) (.epk ephI))) (.atom idR))
+  have hs2' : ctx.s2 = .sigma2 (.atom rR) (.atom sR) (.epk ephR) E2 := by
+    rw [hs2, hiEph]; simp only [E2, hs1]
+  have hkE2 : isSec a b (s2k ctx.secret ctx.fabric.ipk (.atom rR) (.epk ephR) ctx.s1) = true := by
+    rw [hSec]; simp [s2k, isSec]
+  have hab : a ∈ [ephI, ephR] ∧ b ∈ [ephI, ephR] := by
+    simp only [List.mem_cons, List.not_mem_nil, or_false, a, b]; omega
+  have h1 : P a b (initSigma1 f [] peer ephI (.atom rI) (.atom sI)).s1.toTerm ∧
+      R S C [E2] (initSigma1 f [] peer ephI (.atom rI) (.atom sI)).s1.toTerm := by
+    simp [initSigma1, Msg.toTerm, resumeTerm, destId, hipk, P, R]
+  have h2 : P a b ctx.s2.toTerm ∧ R S C [E2] ctx.s2.toTerm := by
+    rw [hs2']
+    refine ⟨?_, ?_⟩
+    · show P a b (.atom 2) ∧ P a b (.atom rR) ∧ P a b (.atom sR) ∧ P a b (.epk ephR) ∧ P a b E2
+      exact ⟨trivial, trivial, trivial, trivial, Or.inl hkE2⟩
+    · show R S C _ (.atom 2) ∧ R S C _ (.atom rR) ∧ R S C _ (.atom sR) ∧ R S C _ (.epk ephR) ∧ R S C _ E2
+      exact ⟨trivial, trivial, trivial, trivial, Or.inl List.mem_cons_self⟩
+  have hRm := derivable_R a b [ephI, ephR] S C [E2] _ hab.1 hab.2 (by
+    intro x hx
+    simp only [List.mem_cons, List.not_mem_nil, or_false] at hx
+    rcases hx with rfl | rfl | rfl
+    · exact h1
+    · exact h2
+    · rw [hipk]; simp [P, R]) (by
+    intro k n p hmem
+    simp only [List.mem_cons, List.not_mem_nil, or_false, E2, Term.enc.injEq] at hmem
+    rw [hmem.1]; exact hkE2) m.toTerm hD
+  rw [hm] at hRm
+  simp only [Msg.toTerm, R] at hRm
+  rcases hRm.2.2.2.2 with hmem | hr
+  · -- the ciphertext is the responder's own: the random and ephemeral key are bound by its key
+    simp only [List.mem_cons, List.not_mem_nil, or_false] at hmem
+    have hmem' := hmem
+    simp only [E2, Term.enc.injEq, s2k, Term.kdf.injEq, Term.pair.injEq] at hmem'
+    obtain ⟨⟨_, ⟨_, hrnd, hreph, _⟩, _⟩, _, _⟩ := hmem'
+    refine ⟨rSid, ?_⟩
+    rw [hm, hmem, hrnd, hreph]
+  · -- a ciphertext of the attacker's own making: its signature would have to be under the
+    -- responder's operational key
+    exfalso
+    have hr3 := hr.2.2
+    simp only [tbe2, R] at hr3
+    have hCn : C noc := hr3.1
+    have hSk : S noc.pubKey := by
+      have := hr3.2.2.1
+      rw [hsig] at this
+      exact this.1
+    have : noc.pubKey = ctx.fabric.opKey := hC noc icac hCn hv hn
+    rw [this] at hSk
+    exact hS hSk
 
 /-! ## Non-vacuity: a concrete honest handshake (full and resumed) -/
 
@@ -779,5 +923,60 @@ example : (match respSigma1 [devFabric] (.sigma1 (.atom 501) (.atom 601) (destId
 /-- a controller whose NOC chains to another root gets no session -/
 example : (respSigma3 C19.exT { exResp with fabric := { devFabric with root := { C19.exRoot with pubKey := 4, sigBy := some 4 } } }
     exInit3.s3).isSome = false := by decide
+
+/-! ## `C01_full`: its certificate assumption is necessary, and its hypotheses are satisfiable -/
+
+/-- the attacker's view of the concrete honest run -/
+def exWire : List Term := [exInit.s1.toTerm, exResp.s2.toTerm, ctlFabric.ipk]
+
+/-- a second certificate for the addressed node id 200, valid under the same root, certifying
+a key (66) the attacker owns -/
+def evilNoc : Cert := { devNoc with skid := some 66, pubKey := 66 }
+
+/-- the Sigma2 an insider with `evilNoc` builds from its own ephemeral secret 99 -/
+def evilSigma2 : Msg :=
+  .sigma2 (.atom 1) (.atom 2) (.epk 99)
+    (.enc (s2k (ecdh 99 (.epk 11)) (.atom 77) (.atom 1) (.epk 99) exInit.s1) nonceS2
+      (tbe2 evilNoc .none (Term.sign 66 (tbs evilNoc .none (.epk 99) (.epk 11))) (.atom 3)))
+
+example : CaseValid C19.exT ctlFabric.view evilNoc .none := by decide
+
+/-- **the certificate assumption is necessary**: if a second valid certificate for the addressed
+node id exists for a key the attacker can sign with, the attacker (who cannot sign under the
+responder's key 8) derives a Sigma2 from the wire that the initiator accepts and that is not the
+responder's. -/
+example :
+    Derivable [11, 12] (· = 66) (· = evilNoc) exWire evilSigma2.toTerm ∧
+    ¬ (fun k => k = 66) devFabric.opKey ∧
+    (initSigma2 C19.exT exInit evilSigma2).isSome = true ∧
+    ∀ sid', evilSigma2 ≠ .sigma2 (.atom 502) sid' (.epk 12) exResp.s2.toTerm := by
+  refine ⟨?_, by decide, by decide, fun sid' h => by simp [evilSigma2] at h⟩
+  have hk : Derivable [11, 12] (· = 66) (· = evilNoc) exWire exInit.s1.toTerm :=
+    .known (by simp [exWire])
+  have hsh : Derivable [11, 12] (· = 66) (· = evilNoc) exWire (ecdh 99 (.epk 11)) :=
+    .ownEcdh (by decide) (.epk 11)
+  have hc : Derivable [11, 12] (· = 66) (· = evilNoc) exWire (.cert evilNoc) := .cert rfl
+  unfold evilSigma2 Msg.toTerm
+  refine .pair (.atom _) (.pair (.atom _) (.pair (.atom _) (.pair (.epk _) (.enc ?_ (.atom _) ?_))))
+  · exact .kdf hsh (.pair (.atom _) (.pair (.atom _) (.pair (.epk _) (.hash hk)))) (.atom _)
+  · exact .pair hc (.pair .none (.pair (.sign rfl (.pair hc (.pair .none (.pair (.epk _) (.epk _))))) (.atom _)))
+
+/-- **the assumptions are satisfiable**: in the concrete run, with an attacker that knows the
+responder's certificate and can sign under every key but the responder's (8), the hypotheses of
+`C01_full` hold and the theorem pins the accepted Sigma2 down -/
+example : ∃ sid', exResp.s2 = .sigma2 (.atom 502) sid' (.epk 12)
+    (.enc (s2k exResp.secret exResp.fabric.ipk (.atom 502) (.epk 12) exResp.s1) nonceS2
+      (tbe2 exResp.fabric.noc exResp.fabric.icac
+        (Term.sign exResp.fabric.opKey (tbs exResp.fabric.noc exResp.fabric.icac (.epk 12) (.epk 11)))
+        (.atom 702))) :=
+  C01_full C19.exT [devFabric] ctlFabric 200 11 12 501 601 77 502 702 602 exResp exInit3
+    (· ≠ 8) (· = devNoc) exResp.s2 rfl (by rfl) (by decide)
+    (by intro c ic hc _ _; subst hc; decide)
+    (.known (by simp)) (by
+      show initSigma2 C19.exT exInit exResp.s2 = some ((initSigma2 C19.exT exInit exResp.s2).getD default)
+      have h : (initSigma2 C19.exT exInit exResp.s2).isSome = true := by decide
+      cases hh : initSigma2 C19.exT exInit exResp.s2 with
+      | none => rw [hh] at h; cases h
+      | some v => rfl)
 
 end C01
